@@ -196,3 +196,22 @@ Theorem C06_sched_user_first_legacy_refuted :
   ok_with tie_user_first w_out_at_exit = true.
 Proof. exact user_first_legacy_refuted. Qed.
 Print Assumptions C06_sched_user_first_legacy_refuted.
+
+(* the perf extension is conservative: without perf events it is the --no-merge view of the base model, whatever the tie rule *)
+Theorem C06_sched_conservative : forall wins forks sel f tasks,
+  replay_x wins forks sel f tasks [] = map XL (fst (replay forks (mkvariant false sel f None false) tasks)).
+Proof. exact replay_x_no_perf. Qed.
+Print Assumptions C06_sched_conservative.
+
+(* a task (set up, not waiting for a re-synchronisation) switched out at a and in at b: stack count, display depth and user
+   stack count are restored, every frame below the top is untouched - the open calls keep their start times, so their
+   durations are exit - entry as without the pair - and the slot the sched-in line shows holds b - a *)
+Theorem C06_sched_pair_neutral : forall inh ts i a b k,
+  t_set ts = true -> t_lost ts = false -> k <> 1 -> a <= b -> b < W64 ->
+  let ts1 := consume_p inh ts (dummy (mkpev a i k)) in
+  let ts2 := consume_p inh ts1 (dummy (mkpev b i 1)) in
+  t_sc ts2 = t_sc ts /\ t_dd ts2 = t_dd ts /\ t_usc ts2 = t_usc ts /\ t_set ts2 = true /\ t_lost ts2 = false /\
+  (forall j, j < t_sc ts -> fget (t_stack ts2) j = fget (t_stack ts) j) /\
+  f_time (fget (t_stack ts2) (t_sc ts2)) = b - a.
+Proof. exact sched_pair_neutral. Qed.
+Print Assumptions C06_sched_pair_neutral.
